@@ -86,3 +86,8 @@ impl<T: Copy + std::fmt::Debug> Block for ToText<T> {
         Ok(BlockRet::WaitForStream(&self.srcs[cur_block], 1))
     }
 }
+
+#[cfg(rustradio_verif)]
+pub mod verif_access {
+    include!(concat!(env!("RUSTRADIO_VERIF_DIR"), "/access/to_text.rs"));
+}
